@@ -340,28 +340,39 @@ func runCheck(prop, tier string) int {
 	if violations > maxReported {
 		fmt.Printf("... and %d more failed obligations of property %s (not listed individually; evidence has the count)\n", violations-maxReported, prop)
 	}
+	boundedKnown := map[*Finding]int{}
 	for _, b := range c.Bounded {
 		if b.Failed > 0 {
 			// bounded stand-ins report like obligations, by name
 			name := "bounded/" + b.Name
-			known := false
+			var hit *Finding
 			for k := range findings {
 				fd := &findings[k]
 				if fd.Status == "known" && fd.Property == prop && globMatch(fd.Obligation, name) {
-					fmt.Printf("KNOWN-FINDING: property=%s %s witness=%s (%s)\n", prop, name, fd.Witness, fd.What)
-					knownSeen = append(knownSeen, name)
-					known = true
+					hit = fd
 					break
 				}
 			}
-			if !known {
-				violations++
-				exit = 1
-				o := &Obligation{Name: name, Class: "bounded", Status: "sat", Output: b.Detail}
-				fl := failure{ob: o}
-				path := writeReplay(c, &fl)
-				fmt.Printf("VIOLATION property=%s replay=%s obligation=%s\n", prop, path, name)
+			if hit != nil {
+				boundedKnown[hit]++
+				if boundedKnown[hit] == 1 {
+					fmt.Printf("KNOWN-FINDING: property=%s %s witness=%s (%s)\n", prop, name, hit.Witness, hit.What)
+				}
+				continue
 			}
+			violations++
+			exit = 1
+			if violations > maxReported {
+				continue
+			}
+			dir := filepath.Join(verifDir, "replays", c.Prop)
+			os.MkdirAll(dir, 0o755)
+			path := filepath.Join(dir, sanitize(truncate(name, 120))+".json")
+			m := map[string]interface{}{"property": c.Prop, "obligation": name, "class": "bounded", "failing_input_reproduced": true,
+				"failing_input": b.Name, "observed": b.Detail, "note": "found by running the real code (bounded stand-in: " + b.Bound + ")"}
+			data, _ := json.MarshalIndent(m, "", " ")
+			os.WriteFile(path, data, 0o644)
+			fmt.Printf("VIOLATION property=%s replay=%s obligation=%s\n", prop, path, truncate(name, 200))
 		}
 	}
 
